@@ -171,7 +171,7 @@ def run_batched(case, drv):
         each = torch.stack([mrpro.operators.EinsumOp(A[i]).operator_norm(v[i], dim=None, max_iterations=case['budget'], relative_tolerance=0.0,
                                                                        absolute_tolerance=0.0) for i in range(b)])
         sv = torch.stack([torch.linalg.svdvals(A[i].double())[0] for i in range(b)])
-        if val.shape != (b, 1) or float((val.reshape(-1) - each.reshape(-1)).abs().max()) > 1e-4 * float(each.abs().max()):
+        if val.shape != (b, 1) or float((val.reshape(-1) - each.reshape(-1)).abs().nan_to_num(nan=float('inf')).max()) > 1e-4 * float(each.abs().max()):
             viol = {'signature': 'batched:per-batch', 'what': f'batched estimate {val.flatten().tolist()} != per-batch estimates {each.flatten().tolist()}'}
         elif bool((val.reshape(-1).double() > sv * (1 + 1e-4)).any()):
             viol = {'signature': 'batched:exceeds', 'what': f'batched estimate exceeds per-batch sigma_max'}
